@@ -1,10 +1,10 @@
 package rules
 
 import (
-	"strconv"
 	"fmt"
 	"regexp"
 	"sort"
+	"strconv"
 	"strings"
 
 	"golang.org/x/tools/go/ssa"
@@ -242,7 +242,10 @@ func checkC12(c *core.Ctx, l *core.Ledger) {
 	l.Floor("CLASSIFY", 5)
 
 	// 3. ECHO
-	echo := []struct{ name string; must, mustNot []string }{
+	echo := []struct {
+		name          string
+		must, mustNot []string
+	}{
 		{"EnvelopeV0Responder.EncodeResponse", []string{"call:(*Writer).WriteLegacyEnveloped(BorrowWriter($3),LIT{Name=$0.Name;Type=$2;SeqID=$0.SeqID;Value=$1})"}, []string{".WriteEnveloped("}},
 		{"EnvelopeV1Responder.EncodeResponse", []string{"call:(*Writer).WriteEnveloped(BorrowWriter($3),LIT{Name=$0.Name;Type=$2;SeqID=$0.SeqID;Value=$1})"}, []string{".WriteLegacyEnveloped("}},
 		{"EnvelopeV0Responder.WriteResponse", []string{"call:sw.WriteLegacyEnvelopeBegin(NewStreamWriter($2),LIT{Name=$0.Name;Type=$1;SeqID=$0.SeqID}) call:inv:Encode($3;NewStreamWriter($2)) call:sw.WriteLegacyEnvelopeEnd(NewStreamWriter($2))"}, []string{".WriteEnvelopeBegin("}},
